@@ -1105,8 +1105,13 @@ PODSTR_NS = [0, 1, 2, 3, 4, 5, 6, 7, 8, 10, 16, 32]
 def podstr_history(rng, cid, n=None):
     n = n if n is not None else rng.choice(PODSTR_NS)
     ops = []
+    if rng.random() < 0.3:
+        ops += ['asstr', 'disp']          # the value the case starts with is PodStr::default()
     for _ in range(rng.randint(2, 10)):
         x = rng.random()
+        if x < 0.06:
+            ops += ['default', 'asstr', 'disp', 'asstru']
+            continue
         s = rand_string(rng, rng.choice([0, 1, 2, 3, 5, 8, 12]))
         if rng.random() < 0.3:
             # exact fit / overflow by one byte
